@@ -28,9 +28,18 @@ def run(v, workdir, replay):
     exe = runner.build_crate_tests("astria-sequencer", workdir)
     runner.run_entry(exe, "mempool::verif::model_walk", workdir, v, nshards=16, timeout=2400,
                      env={"VERIF_RUNS": "40" if thorough else "4", "VERIF_OPS": "1500" if thorough else "350"})
+    # schedule diversity: CheckTx tasks, readers and the consensus side concurrently on one Mempool (multi-thread runtime)
+    runner.run_entry(exe, "mempool::verif::conc_stress", workdir, v, nshards=16, timeout=2400,
+                     env={"VERIF_CONC_RUNS": "12" if thorough else "2", "VERIF_CONC_ROUNDS": "10" if thorough else "6"})
     events = list(runner.read_events(workdir))
     runner.check_started_ended(events)
     check(v, events)
+    v.need("conc_rounds", 150)
+    v.need("conc_checktx_returns", 5000)
+    v.need("conc_status_reads", 500)
+    v.need("conc_queue_reads", 500)
+    v.need("conc_same_bytes_from_two_tasks", 50)
+    v.need("conc_distinct_outcome_orders", 100)
     v.need("ops", 10000 if not thorough else 300000)
     for t in ("promotion", "demotion", "expiry", "cascade_removal", "recost_moves", "included", "parked_total_limit_hit"):
         v.need(t, 2)
@@ -48,9 +57,17 @@ def check(v, events):
         info = {}      # id -> (acct, nonce, group, costs)
         place = {}     # id -> last place
         gone = set()   # ids observed removed (no longer tracked)
+        conc_acc = collections.defaultdict(dict)   # round -> id -> tx meta (accepted by some CheckTx of that round)
+        if start.get("mode") == "concurrent":
+            concurrent_part(v, key, evs, conc_acc)
         for e in evs:
             if e["kind"] != "mp_op":
                 continue
+            if e["op"]["op"] == "conc_round":
+                for i, m in conc_acc.get(e["n"], {}).items():
+                    info[i] = {"acct": m["acct"], "nonce": m["nonce"], "group": m["group"], "costs": {a: int(n) for a, n in m["costs"].items()}}
+                    gone.discard(i)
+                v.saw("conc_rounds")
             v.evaluations += 1
             v.saw("ops")
             op, w = e["op"], e["walk"]
@@ -174,3 +191,51 @@ def afford(v, wit, acct, lst, info, balances):
         if c > balances.get(a, 0):
             v.violate("C13/ready-set-not-affordable", "ready transactions of %s need %d of %s but %d was shown" % (acct, c, a[:12], balances.get(a, 0)), wit)
             return
+
+
+def concurrent_part(v, key, evs, conc_acc):
+    """Observations made *while* tasks were running (not at a quiescent point)."""
+    round_ms = {e["n"]: e["op"].get("round_ms", 0) for e in evs if e["kind"] == "mp_op" and e["op"]["op"] == "conc_round"}
+    accepted_at = {}            # id -> seq of the first accepting CheckTx return
+    submitters = collections.defaultdict(set)
+    order_sig = collections.defaultdict(list)
+    for e in evs:
+        k = e["kind"]
+        if k == "mc_ret" and e["op"] == "check_tx":
+            v.saw("conc_checktx_returns")
+            v.saw("conc_outcome_" + e["class"])
+            submitters[(e["round"], e["id"])].add(e["task"])
+            order_sig[e["round"]].append((e["task"], e["class"]))
+            if e["accepted"]:
+                conc_acc[e["round"]][e["id"]] = e["tx"]
+                accepted_at.setdefault(e["id"], e["seq"])
+        elif k == "mc_ret" and e["op"] == "status":
+            v.saw("conc_status_reads")
+            v.saw("conc_status_" + e["status"].split(":")[0])
+            if e["status"] == "none":
+                wit = {"run": list(key), "round": e["round"], "id": e["id"], "seq": e["seq"], "accepted_at_seq": accepted_at.get(e["id"])}
+                if round_ms.get(e["round"], 0) > 30000:
+                    v.extra.setdefault("notes", []).append("status none in a round that lasted %d ms (execution-result retention is 60 s): not judged" % round_ms[e["round"]])
+                elif e["id"] in accepted_at and accepted_at[e["id"]] < e["seq"]:
+                    v.violate("C13/accepted-tx-vanished/concurrent-status-read", "a transaction accepted by CheckTx had no status (not ready, not parked, not "
+                              "reported removed) when read concurrently with other operations", wit)
+        elif k == "mc_queue":
+            v.saw("conc_queue_reads")
+            seen = {}
+            for a, n, g, i in e["queue"]:
+                kk = (a, g)
+                if kk in seen and seen[kk] > n:
+                    v.violate("C13/builder-queue-nonce-order", "builder queue (read concurrently) places nonce %d of %s after %d (group %s)" % (n, a, seen[kk], g),
+                              {"run": list(key), "round": e["round"], "seq": e["seq"]})
+                seen[kk] = max(seen.get(kk, -1), n)
+            ids = [i for _, _, _, i in e["queue"]]
+            if len(ids) != len(set(ids)):
+                v.violate("C13/builder-queue-duplicate", "builder queue (read concurrently) lists a transaction twice", {"run": list(key), "round": e["round"], "seq": e["seq"]})
+    for (rnd, i), tasks in submitters.items():
+        if len(tasks) > 1:
+            v.saw("conc_same_bytes_from_two_tasks")
+    for rnd, sig in order_sig.items():
+        # the observed interleaving of CheckTx returns across tasks, as a coverage cell (distinct schedules seen)
+        h = runner.sha(repr(sig))[:12]
+        v.cell("conc", "round", h)
+        v.saw("conc_distinct_outcome_orders")
